@@ -83,7 +83,7 @@ class CaseBuilder:
         return self._op("eq", {"op": "eq", "a": a, "b": b}, "o_eq %s %s" % (self.sl(a), self.sl(b)), (a, b))
 
     def solve(self, method, iters, max_reg=0.0, threads=1, params=None, draws=None, yield_seed=0, record=False,
-              kind="solve"):
+              kind="solve", multi_sched=None):
         """params: None | preset name | [a, b, g, w] floats; draws: None | {"chance": [[..]], "player": [[..]]}"""
         k = self.slot()
         sname = "s%d_%d" % (self.cid, k)
@@ -101,12 +101,34 @@ class CaseBuilder:
             tab = lambda rows: coq_list([coq_list([coq_N(v) for v in r]) for r in rows])
             cd = "(table_draw %s %s)" % (tab(draws["chance"]), tab(draws["player"]))
         meth = {"full": "Full", "sampled": "Sampled", "external": "External"}[method]
-        self._def(sname, "f_solve %s %s %s %s %s %s %s" % (self.g, meth, cd, cp, coq_N(iters), coq_float(max_reg), coq_N(threads)))
+        if multi_sched is None:
+            self._def(sname, "f_solve %s %s %s %s %s %s %s" % (self.g, meth, cd, cp, coq_N(iters), coq_float(max_reg), coq_N(threads)))
+        else:
+            # the model of the multi-threaded solver itself, under schedule number multi_sched (Exec.f_solve_multi)
+            self._def(sname, "f_solve_multi %s %s %s %s %s %s %s %s" % (self.g, meth, cd, cp, coq_N(iters), coq_float(max_reg),
+                                                                         coq_N(threads), coq_N(multi_sched)))
         self._def(self.sl(k), "p_of_solved %s" % sname)
         js = {"op": "solve", "dst": k, "method": method, "iters": iters, "max_reg": f2b(max_reg),
               "threads": threads, "params": jp, "draws": draws, "yield_seed": yield_seed, "record": record}
         self._op(kind, js, "o_solved %s" % sname, (), k)
         return k
+
+    def cancel(self, method, iters, params=None, draws=None):
+        """model only: conditioning of the regret sums per iteration (Exec.o_cancel); the executor skips the op"""
+        presets = {"vanilla": 0, "lcfr": 1, "cfr_plus": 2, "dcfr": 3, "dcfr_prune": 4, "default": 5}
+        if params is None:
+            cp = "(preset 5%N)"
+        elif isinstance(params, str):
+            cp = "(preset %d%%N)" % presets[params]
+        else:
+            cp = "(params_new %s)" % " ".join(coq_float(x) for x in params)
+        if draws is None or "weighted_seed" in draws:
+            cd = "no_draw"
+        else:
+            tab = lambda rows: coq_list([coq_list([coq_N(v) for v in r]) for r in rows])
+            cd = "(table_draw %s %s)" % (tab(draws["chance"]), tab(draws["player"]))
+        meth = {"full": "Full", "sampled": "Sampled", "external": "External"}[method]
+        return self._op("cancel", {"op": "noop"}, "o_cancel %s %s %s %s %s" % (self.g, meth, cd, cp, coq_N(iters)))
 
     def raw(self, kind, js, defs, out, srcs=(), dst=None):
         """escape hatch used by the solver properties"""
@@ -116,7 +138,10 @@ class CaseBuilder:
 
     # ---- rendering ----
     def case(self):
-        return {"id": self.cid, "tree": self.tree, "ops": self.ops}
+        # the executor hands the children of every node to from_root through an iterator whose size_hint style varies
+        # with the case (exact / uninformative / bare lower bound / loose upper bound): the game must be the same
+        return {"id": self.cid, "tree": self.tree, "ops": self.ops,
+                "iter_style": self.meta.get("iter_style", self.cid % 4 if isinstance(self.cid, int) else 0)}
 
     def coq(self):
         lines = ["Definition t%d : fgnode := %s." % (self.cid, self.meta.get("coq_tree_expr") or coq_tree(self.tree)),
